@@ -684,4 +684,159 @@ example : (0:ℝ) ≤ 1/10 ∧ (1/10 : ℝ) < 1 ∧ (0:ℝ) < 365 := by norm_num
 /-- lawful comparisons exist (ℚ and ℝ) -/
 example : LawfulOrd ratOps ∧ LawfulOrd realOps := ⟨ratOps_lawful, realOps_lawful⟩
 
+/-! ### Round 3: the rate-derived probability over dt; array identity -/
+
+/-- **Rate-derived probability, monotone in dt**: a longer parent step gives a larger per-step probability. -/
+theorem C06_rateprob_mono_dt {v s lu lpu p1 p2 : ℝ} (h0 : 0 ≤ v) (hs : 0 < s) (hlu : 0 < lu) (hlpu : 0 < lpu)
+    (hp1 : 0 < p1) (h12 : p1 ≤ p2) :
+    realOps.rpFormula v ((s / p1) * (lu / lpu)) ≤ realOps.rpFormula v ((s / p2) * (lu / lpu)) := by
+  have hp2 : 0 < p2 := lt_of_lt_of_le hp1 h12
+  rw [rp_real, rp_real]
+  have hf : (s / p2) * (lu / lpu) ≤ (s / p1) * (lu / lpu) :=
+    mul_le_mul_of_nonneg_right (div_le_div_of_nonneg_left hs.le hp1 h12) (by positivity)
+  have hpos2 : 0 < (s / p2) * (lu / lpu) := by positivity
+  have h3 : v / ((s / p1) * (lu / lpu)) ≤ v / ((s / p2) * (lu / lpu)) := div_le_div_of_nonneg_left h0 hpos2 hf
+  have h5 : Real.exp (-v / ((s / p2) * (lu / lpu))) ≤ Real.exp (-v / ((s / p1) * (lu / lpu))) := by
+    apply Real.exp_le_exp.mpr
+    rw [neg_div, neg_div]
+    linarith
+  linarith
+
+/-- **…strictly, and never certain**: for a positive rate a strictly longer step gives a strictly larger probability, still below 1
+    (the conversion cannot saturate at 1 for any finite rate and step). -/
+theorem C06_rateprob_strict_mono_dt {v s lu lpu p1 p2 : ℝ} (h0 : 0 < v) (hs : 0 < s) (hlu : 0 < lu) (hlpu : 0 < lpu)
+    (hp1 : 0 < p1) (h12 : p1 < p2) :
+    realOps.rpFormula v ((s / p1) * (lu / lpu)) < realOps.rpFormula v ((s / p2) * (lu / lpu)) ∧
+    realOps.rpFormula v ((s / p2) * (lu / lpu)) < 1 := by
+  have hp2 : 0 < p2 := lt_trans hp1 h12
+  refine ⟨?_, rp_lt_one _ _⟩
+  rw [rp_real, rp_real]
+  have hf : (s / p2) * (lu / lpu) < (s / p1) * (lu / lpu) :=
+    mul_lt_mul_of_pos_right (div_lt_div_of_pos_left hs hp1 h12) (by positivity)
+  have hpos2 : 0 < (s / p2) * (lu / lpu) := by positivity
+  have h3 : v / ((s / p1) * (lu / lpu)) < v / ((s / p2) * (lu / lpu)) := div_lt_div_of_pos_left h0 hpos2 hf
+  have h5 : Real.exp (-v / ((s / p2) * (lu / lpu))) < Real.exp (-v / ((s / p1) * (lu / lpu))) := by
+    apply Real.exp_lt_exp.mpr
+    rw [neg_div, neg_div]
+    linarith
+  linarith
+
+theorem step_append {α : Type} (s : Store α) (ob : ARef) (op : AOp α) : ∃ t, (op.step s ob).1 = s ++ t := by
+  cases op <;> exact ⟨_, rfl⟩
+
+theorem step_wf {α : Type} (s : Store α) (ob : ARef) (op : AOp α) (h : ARef.wf (s, ob)) : ARef.wf (op.step s ob) := by
+  cases op <;> simp [AOp.step, ARef.wf] at * <;> omega
+
+theorem runOps_append {α : Type} (a b : List (AOp α)) (x : Store α × ARef) : runOps (a ++ b) x = runOps b (runOps a x) := by
+  induction a generalizing x with
+  | nil => rfl
+  | cons op a ih => simp [runOps, ih]
+
+theorem runOps_wf {α : Type} (ops : List (AOp α)) (x : Store α × ARef) (h : ARef.wf x) : ARef.wf (runOps ops x) := by
+  induction ops generalizing x with
+  | nil => exact h
+  | cons op ops ih => exact ih _ (step_wf x.1 x.2 op h)
+
+/-- **The store is append-only**: whatever the history of calls (links, re-links, new arrays, conversions, arithmetic, in any
+    order and number), arrays are only ever allocated. -/
+theorem C06_store_append_only {α : Type} (ops : List (AOp α)) (x : Store α × ARef) : ∃ t, (runOps ops x).1 = x.1 ++ t := by
+  induction ops generalizing x with
+  | nil => exact ⟨[], by simp [runOps]⟩
+  | cons op ops ih =>
+    obtain ⟨t1, h1⟩ := step_append x.1 x.2 op
+    obtain ⟨t2, h2⟩ := ih (op.step x.1 x.2)
+    exact ⟨t1 ++ t2, by simp [runOps, h2, h1, List.append_assoc]⟩
+
+/-- **No array that exists is ever overwritten**: the caller's input array, the `v` and `values` of every object left behind
+    in the chain, a `values` array somebody still holds — each keeps its contents through any further history. -/
+theorem C06_buffers_never_overwritten {α : Type} (ops : List (AOp α)) (x : Store α × ARef) (i : Nat) (hi : i < x.1.length) :
+    readBuf (runOps ops x).1 i = readBuf x.1 i := by
+  obtain ⟨t, h⟩ := C06_store_append_only ops x
+  simp [readBuf, h, List.getElem?_append_left hi]
+
+/-- **Linking never changes the quantity in its own unit**: any number of `init` / `set(parent_…)` / `update_cached` calls leaves
+    `v` the same array with the same contents. -/
+theorem C06_links_preserve_v {α : Type} (ops : List (AOp α)) (hall : ∀ op ∈ ops, op.isUpd = true) (x : Store α × ARef)
+    (hwf : ARef.wf x) :
+    (runOps ops x).2.vId = x.2.vId ∧ readBuf (runOps ops x).1 (runOps ops x).2.vId = readBuf x.1 x.2.vId := by
+  have hid : (runOps ops x).2.vId = x.2.vId := by
+    induction ops generalizing x with
+    | nil => rfl
+    | cons op ops ih =>
+      have hop := hall op (by simp)
+      have ht := ih (fun o ho => hall o (by simp [ho])) (op.step x.1 x.2) (step_wf x.1 x.2 op hwf)
+      cases op with
+      | upd f => simpa [runOps, AOp.step] using ht
+      | setV l f => simp [AOp.isUpd] at hop
+      | conv f => simp [AOp.isUpd] at hop
+      | arith g f => simp [AOp.isUpd] at hop
+  exact ⟨hid, by rw [hid]; exact C06_buffers_never_overwritten ops x _ hwf⟩
+
+/-- **The values depend on the present, not on the history**: after any number of links, one more update with the conversion `f`
+    leaves `values` = `f` applied elementwise to the ORIGINAL `v`, in an array that is not `v`. -/
+theorem C06_values_history_independent {α : Type} (ops : List (AOp α)) (hall : ∀ op ∈ ops, op.isUpd = true) (f : α → α)
+    (x : Store α × ARef) (hwf : ARef.wf x) :
+    ∃ j, (runOps (ops ++ [.upd f]) x).2.valuesId = some j ∧ j ≠ (runOps (ops ++ [.upd f]) x).2.vId ∧
+      readBuf (runOps (ops ++ [.upd f]) x).1 j = (readBuf x.1 x.2.vId).map f ∧
+      readBuf (runOps (ops ++ [.upd f]) x).1 (runOps (ops ++ [.upd f]) x).2.vId = readBuf x.1 x.2.vId := by
+  obtain ⟨hid, hv⟩ := C06_links_preserve_v ops hall x hwf
+  have hw := runOps_wf ops x hwf
+  rw [runOps_append]
+  generalize runOps ops x = y at *
+  refine ⟨y.1.length, by simp [runOps, AOp.step], ?_, ?_, ?_⟩
+  · simp only [runOps, AOp.step]; exact Nat.ne_of_gt hw
+  · simp only [runOps, AOp.step, readBuf, List.getElem?_concat_length, Option.getD_some] at *
+    rw [hv]
+  · simp only [runOps, AOp.step]
+    simp only [readBuf, List.getElem?_append_left hw] at *
+    exact hv
+
+/-- **Conversion, then any links**: the converted object's `v` is the conversion `g` of the receiver's `v` and stays so through
+    every later link; its `values` are `f ∘ g` of it, in an array of their own (the `v is values` aliasing that `to()` leaves
+    behind ends at the first update); the receiver's `v` array is untouched. -/
+theorem C06_conversion_then_links {α : Type} (g f : α → α) (ops : List (AOp α)) (hall : ∀ op ∈ ops, op.isUpd = true)
+    (x : Store α × ARef) (hwf : ARef.wf x) :
+    let y := runOps (.conv g :: (ops ++ [.upd f])) x
+    (AOp.step x.1 x.2 (.conv g)).2.valuesId = some (AOp.step x.1 x.2 (.conv g)).2.vId ∧
+    readBuf y.1 y.2.vId = (readBuf x.1 x.2.vId).map g ∧
+    (∃ j, y.2.valuesId = some j ∧ j ≠ y.2.vId ∧ readBuf y.1 j = ((readBuf x.1 x.2.vId).map g).map f) ∧
+    readBuf y.1 x.2.vId = readBuf x.1 x.2.vId := by
+  intro y
+  have hwf1 : ARef.wf (AOp.step x.1 x.2 (.conv g)) := step_wf x.1 x.2 _ hwf
+  have hc : readBuf (AOp.step x.1 x.2 (.conv g)).1 (AOp.step x.1 x.2 (.conv g)).2.vId = (readBuf x.1 x.2.vId).map g := by
+    simp [AOp.step, readBuf]
+  obtain ⟨j, h1, h2, h3, h4⟩ := C06_values_history_independent ops hall f _ hwf1
+  refine ⟨rfl, ?_, ⟨j, h1, h2, ?_⟩, ?_⟩
+  · show readBuf (runOps (ops ++ [.upd f]) (AOp.step x.1 x.2 (.conv g))).1 (runOps (ops ++ [.upd f]) (AOp.step x.1 x.2 (.conv g))).2.vId = _
+    rw [h4, hc]
+  · show readBuf (runOps (ops ++ [.upd f]) (AOp.step x.1 x.2 (.conv g))).1 j = _
+    rw [h3, hc]
+  · exact C06_buffers_never_overwritten (.conv g :: (ops ++ [.upd f])) x _ hwf
+
+/-- the store-level update writes what the functional model's array branch computes (`convVal`, non-zero factor) -/
+theorem C06_update_values_array {α : Type} (o : NumOps α) (k : Kind) (f0 : α) (hf : o.beq f0 o.zero = false)
+    (s : Store α) (ob : ARef) :
+    (convVal o k f0 (.array (readBuf s ob.vId))).1 =
+      some (.array (readBuf (AOp.step s ob (.upd (convElem o k f0))).1 s.length)) ∧
+    (AOp.step s ob (.upd (convElem o k f0))).2.valuesId = some s.length := by
+  simp [convVal, hf, AOp.step, readBuf]
+
+/-- **What the theorems above rest on** (sensitivity, not today's code): were `update_values` to write into the existing
+    `values` array, the object returned by `to()` — whose `v` IS that array — would have its own-unit quantity rescaled by
+    the next link.  Kernel-checked witness: `[1, 2]` converted (factor 1), then linked with factor 2. -/
+theorem C06_inplace_update_counterexample :
+    let x := AOp.step (newArr [1, 2]).1 (newArr [1, 2]).2 (.conv (fun t : Nat => t))
+    readBuf (updInPlace x.1 x.2 (fun t => 2 * t)).1 x.2.vId ≠ readBuf x.1 x.2.vId ∧
+    readBuf (AOp.step x.1 x.2 (.upd (fun t => 2 * t))).1 x.2.vId = readBuf x.1 x.2.vId := by decide
+
+-- non-vacuity: a well-formed start, a history made of links only, and the general history of the correspondence
+example : ARef.wf (newArr [(3 : Rat), 5]) ∧ (∀ op ∈ [AOp.upd (fun t : Rat => t * 7), .upd (fun t => t / 2)], op.isUpd = true) := by
+  refine ⟨by decide, ?_⟩
+  intro op h
+  simp at h
+  rcases h with rfl | rfl <;> rfl
+example : (runOps [.upd (· * 7), .conv (· * 7), .upd (· * 2), .arith (· * 3) (· * 2), .setV [1] (· * 2)] (newArr [(3 : Nat), 5])) =
+    ([[3, 5], [21, 35], [21, 35], [42, 70], [63, 105], [126, 210], [1], [2]], { vId := 6, valuesId := some 7 }) := by decide
+example : (0:ℝ) < 52 ∧ (0:ℝ) < 1 ∧ (1:ℝ) < 7 := by norm_num
+
 end StarsimModel.C06
